@@ -183,6 +183,48 @@ func c43(r *core.Report, p *core.Prog, thorough bool) {
 		r.Check(k == "call:NewHardFork().GetKey()" && v == "call:NewHardFork()", "C43.default", "GetRoundByName:key-and-target", p.Pos(gt[0].Pos()),
 			"reads key "+k+" into "+v)
 	}
+	// a fork record that exists but cannot be read (missing trie node) must not silently
+	// fall back to the pre-fork rules: the ErrNodeNotFound guard must dominate the
+	// comparison, and GetRoundByName must hand the trie error through unwrapped, because
+	// the guard matches it by identity (errors.Is).
+	r.Rule("C43.missing", "an unreadable fork record aborts (errors.Is(err, util.ErrNodeNotFound) → return err before the comparison) and the trie error reaches that guard unwrapped")
+	guardOK := false
+	for _, cs := range core.CallsIn(wa, false, core.NameIs("errors.Is")) {
+		call := cs.Instr.(*ssa.Call)
+		if len(call.Call.Args) != 2 {
+			continue
+		}
+		tgt := core.AccessPath(call.Call.Args[1])
+		errArg := call.Call.Args[0]
+		isGRErr := false
+		if c2, idx := core.CallOf(errArg); c2 != nil && idx == 1 && core.CalleeName(c2.Common()) == pkgCState+".GetRoundByName" {
+			isGRErr = true
+		}
+		if tgt != "util.ErrNodeNotFound" || !isGRErr {
+			continue
+		}
+		for _, ref := range *call.Referrers() {
+			if ifi2, ok := ref.(*ssa.If); ok {
+				ts := ifi2.Block().Succs[0]
+				aborts := false
+				if ret, ok := ts.Instrs[len(ts.Instrs)-1].(*ssa.Return); ok && core.SameValue(ret.Results[0], errArg) {
+					aborts = true
+				}
+				if aborts && ifi2.Block().Dominates(cmp.Block()) {
+					guardOK = true
+				}
+			}
+		}
+	}
+	r.Check(guardOK, "C43.missing", "WithActivation:node-not-found-guard", p.Pos(wa.Pos()), "errors.Is(err, util.ErrNodeNotFound) must return err before the round comparison")
+	for _, ret := range core.Returns(gr) {
+		if core.ClassifyReturn(ret) == core.ExitSuccess {
+			continue
+		}
+		c2, _ := core.CallOf(ret.Results[1])
+		r.Check(c2 != nil && core.MethodName(c2.Common()) == "GetTrieNode", "C43.missing", "GetRoundByName:error-identity", p.Pos(ret.Pos()),
+			"the error exit must return the trie error itself (a re-wrapped error defeats the identity match of the guard); returns "+describe(ret.Results[1]))
+	}
 	// between the comparison and GetRoundByName: error classification must not return success without calling either
 	for _, ret := range core.Returns(wa) {
 		roots := core.RootDescs(core.Slice(ret.Results[0]))
